@@ -321,6 +321,8 @@ class Check(PropertyCheck):
                 gaps = [(angs[(q + 1) % k] - angs[q]) % (2 * math.pi) for q in range(k)]
                 if max(gaps) >= math.pi - 0.05:
                     continue
+                if rng.random() < 0.5:
+                    d['v'].reverse()          # clockwise vertex order
                 if rng.random() < 0.4:
                     # built with the origin= keyword (vertices relative to an origin pixel)
                     d['origin'] = [float(rng.randint(-8, 8)) / 2, float(rng.randint(-8, 8)) / 2]
